@@ -207,3 +207,51 @@ def r3(cx):
             cx.passed(LOCT, "update-after-generation-check", [lb.sp(s) for s in stores])
         else:
             cx.violation(LOCT, "update-after-generation-check", "the in-memory backend can replace an existing shard entry without stored generation == expected", [lb.sp(s) for s in stores])
+
+
+GETSHARD = "metadata::client::MetadataClient::get_shard_metadata"
+UPDSHARD = "metadata::client::MetadataClient::update_shard_metadata"
+
+
+@rule("C13", "R4", "an update carries the generation it was based on: at every caller of update_shard_metadata the expected generation is either the constant 0 (creation) or the "
+      "`.generation` of the very get_shard_metadata read the submitted document was derived from - never of a different (later or earlier) read")
+def r4(cx):
+    pa = cx.prog_all
+    n = 0
+    for k, c in pa.sites(lambda c: c == UPDSHARD):
+        if k.startswith(("<metadata::", "metadata::")):
+            continue
+        b = pa.body(k)
+        if b is None:
+            continue
+        for bi, t in b.calls():
+            if t["callee"] != UPDSHARD or t.get("sp") != c["sp"]:
+                continue
+            n += 1
+            eo = M.operand_origins(b, t["args"][3], at=(bi, M.T))
+            do = M.operand_origins(b, t["args"][2], at=(bi, M.T))
+            if eo and all(o[0] == "const" for o in eo):
+                vals = {o[1] for o in eo}
+                if vals == {"0"}:
+                    cx.passed(k, "expected-generation-from-same-read@%s" % _site_no(b, bi), [b.sp(bi)], "creation (expected 0)")
+                else:
+                    cx.violation(k, "expected-generation-from-same-read@%s" % _site_no(b, bi), "%s: the expected generation is the constant %s, not the generation of the state the update was computed from" % (
+                        b.sp(bi), sorted(vals)), [b.sp(bi)])
+                continue
+            er = {o[1][0] for o in eo if o[0] == "call" and o[1][1] == GETSHARD and M.strip_unwraps(o[2]).endswith(".generation")}
+            # captures of the ok_or_else(|| ShardNotFound(..)) closure ride along with the adapter; only values count
+            e_other = [o for o in eo if o[0] in ("call", "const", "bin", "arg") and not (o[0] == "call" and o[1][1] == GETSHARD)]
+            dr = {o[1][0] for o in do if o[0] == "call" and o[1][1] == GETSHARD}
+            if er and not e_other and er == dr:
+                cx.passed(k, "expected-generation-from-same-read@%s" % _site_no(b, bi), [b.sp(bi)] + [b.sp(x) for x in sorted(er)])
+            else:
+                why = ("the expected generation is not the `.generation` of a get_shard_metadata result" if not er or e_other else
+                       "the document derives from the read at %s but the expected generation from the read at %s" % ([b.sp(x) for x in sorted(dr)] or "no read", [b.sp(x) for x in sorted(er)]))
+                cx.violation(k, "expected-generation-from-same-read@%s" % _site_no(b, bi), "%s: %s: a state computed from an older version is submitted under a fresher generation (or vice versa), so a "
+                             "concurrent update in between is overwritten instead of being rejected as stale" % (b.sp(bi), why), [b.sp(bi)])
+    cx.floor("callers of update_shard_metadata outside the metadata backends", n, 3)
+
+
+def _site_no(b, bi):
+    sites = sorted(x for x, t in b.calls() if t["callee"] == UPDSHARD)
+    return sites.index(bi)
